@@ -16,8 +16,10 @@ Oracle clauses (evaluated on the implementation's observations, no model involve
                   `agent.cell` are cells of it, listed agents are registered in its model), the mirror holds (an agent is
                   listed exactly once, by the cell it points to, and by no other), capacities are respected
   space-empty     the `empty` property layer of a grid shows exactly the cells that list no agent (S21: it stopped tracking)
-  space-generator the space, its model and every cell use one generator object, the space's own (a copy: its own copy of it, in
-                  the same state)
+  space-generator the space, its model, its cell collection and every cell use one generator object, the space's own (a copy:
+                  its own copy of it, in the same state)
+  space-class     all cells of a grid have one dynamically created class, the grid's own (a copy: a new one; S21: one per cell);
+                  network cells have the plain class
   space-detached  an operation addressed to another family (a space and what was created in it / one copy), or a rejected
                   operation, never changes what a space shows
 """
@@ -135,7 +137,9 @@ class OccImpl:
                 return f"err Cells {len(cells)}"
             s = self.next
             self.spaces[s] = (space, model, coords_of(spec, n))
-            self.name[id(space.random)] = s     # the generator belongs to the pair space/model
+            self.name[id(space.random)] = s     # the generator and (grids) the dynamic cell class belong to the pair space/model
+            if type(cells[0]) is not self.ds.Cell:
+                self.name[id(type(cells[0]))] = s
             for i, c in enumerate(cells):
                 self.cells[s + 1 + i] = c
                 self.owner[s + 1 + i] = s
@@ -213,6 +217,16 @@ class OccImpl:
                 self.cells[n + B] = c2
                 self.owner[n + B] = s + B
                 self.name[id(c2)] = n + B
+        for c2 in news:
+            k2 = type(c2)
+            if k2 is self.ds.Cell:
+                continue
+            if id(k2) not in self.name:
+                if (s + B) in self.name.values():
+                    continue                      # a second new class in one copy: stays unnamed ('?')
+                self.name[id(k2)] = s + B
+            elif self.name[id(k2)] != s + B:
+                problems.append("class-shared")
         olda, newa = list(model._agents), list(model2._agents)
         if len(olda) != len(newa):
             problems.append("agents-length")
@@ -244,15 +258,17 @@ class OccImpl:
             cap = "-" if c.capacity is None else int(c.capacity)
             listed = ".".join(self.cname(a) for a in c.agents)
             conns = ".".join(self.cname(t) for t in c.connections.values())
-            parts.append(f"{self.cname(c)}:{idx}:{cap}:{listed}:{conns}")
+            one = c.random is space.random and space.random is model.random and space.all_cells.random is space.random
+            gen = self.cname(c.random) if one or c.random is None else "?"
+            klass = "-" if type(c) is self.ds.Cell else self.cname(type(c))
+            parts.append(f"{self.cname(c)}:{idx}:{cap}:{listed}:{conns}:{gen}:{klass}")
         ags = [f"{self.cname(a)}:{a.unique_id}:{self.cname(a.cell)}" for a in model._agents]
         if hasattr(space, "_mesa_property_layers"):
             data = space._mesa_property_layers["empty"].data
             empt = [self.cname(c) for c in cells if bool(data[c.coordinate])]
         else:
             empt = [self.cname(c) for c in cells if c.is_empty]
-        gens = sorted({self.cname(g) for g in [space.random, model.random, space.all_cells.random] + [c.random for c in cells]})
-        return "ok " + " ".join(parts) + " | " + " ".join(ags) + " | " + " ".join(empt) + " | " + " ".join(gens)
+        return "ok " + " ".join(parts) + " | " + " ".join(ags) + " | " + " ".join(empt)
 
 
 def run_impl(sc):
@@ -271,19 +287,19 @@ def run_impl(sc):
 
 
 def parse_look(o):
-    """-> (cells [(name, idx, cap, listed, conns)], agents [(name, uid, cell)], empties [name]) with names as strings"""
+    """-> (cells [(name, idx, cap, listed, conns, generator, class)], agents [(name, uid, cell)], empties [name]), names as strings"""
     body = o[3:] if o.startswith("ok ") else ""
     p = body.split(" | ") if body else ["", "", ""]
-    p = (p + ["", "", ""])[:3]   # a fourth part (generators) is read by look_problems
+    p = (p + ["", "", ""])[:3]
     cells = []
     for t in p[0].split():
         f = t.split(":")
-        cells.append((f[0], f[1], f[2], [x for x in f[3].split(".") if x], [x for x in f[4].split(".") if x]))
+        cells.append((f[0], f[1], f[2], [x for x in f[3].split(".") if x], [x for x in f[4].split(".") if x], f[5], f[6]))
     agents = [tuple(t.split(":")) for t in p[1].split()]
     return cells, agents, p[2].split()
 
 
-def look_problems(o, space=None):
+def look_problems(o, space=None, grid=True):
     """the closure / mirror / capacity / empty-layer / generator clauses on one read"""
     bad = []
     cells, agents, empt = parse_look(o)
@@ -293,7 +309,13 @@ def look_problems(o, space=None):
     anames = [a[0] for a in agents]
     if len(set(cnames)) != len(cnames) or len(set(anames)) != len(anames):
         bad.append(("space-closure", "an object is listed twice by the space / the model"))
-    for c, _idx, cap, listed, conns in cells:
+    for c, _idx, cap, listed, conns, gen, klass in cells:
+        if space is not None and gen != str(space):
+            bad.append(("space-generator", f"cell {c} uses generator {gen}; the space, its model and all its cells use the space's own one "
+                        f"({space}) ('-': none, '?': another object)"))
+        if space is not None and klass != (str(space) if grid else "-"):
+            bad.append(("space-class", f"cell {c} has class {klass}; all cells of a grid have the grid's own dynamic class ({space}), "
+                        "network cells the plain Cell class ('-')"))
         for t in conns:
             if t not in cnames:
                 bad.append(("space-closure", f"cell {c} is connected to {t}, which is not a cell of this space"))
@@ -311,10 +333,6 @@ def look_problems(o, space=None):
             bad.append(("space-closure", f"agent {a} points to {c}, which is not a cell of this space"))
         elif at[a] != want:
             bad.append(("space-closure", f"agent {a} points to {c} and is listed by {at[a]}"))
-    gens = (o[3:].split(" | ") + [""] * 4)[3].split() if o.startswith("ok ") else []
-    if space is not None and gens != [str(space)]:
-        bad.append(("space-generator", f"the space, its model and its cells use the generator(s) {gens}; a space owns one generator ({space}) and "
-                    "hands it to its cells ('-': none, '?': an unknown object)"))
     if sorted(empt) != sorted(c[0] for c in cells if not c[3]):
         bad.append(("space-empty", f"the empty layer shows {empt}, the cells without agents are {[c[0] for c in cells if not c[3]]}"))
     return bad
@@ -326,7 +344,7 @@ def shift_look(o, B):
     def sh(x):
         return str(int(x) + B) if x.isdigit() else x
 
-    return ([(sh(c), i, cap, [sh(a) for a in l], [sh(t) for t in cn]) for c, i, cap, l, cn in cells],
+    return ([(sh(c), i, cap, [sh(a) for a in l], [sh(t) for t in cn], sh(g), sh(k)) for c, i, cap, l, cn, g, k in cells],
             [(sh(a), u, sh(c)) for a, u, c in agents], [sh(e) for e in empt])
 
 
@@ -336,6 +354,7 @@ def oracle(sc, obs):
     nfam = 0
     last = {}           # space -> last look
     since = {}          # space -> list of (families touched | None for a rejected op) since its last look
+    is_grid = {}        # space -> it is a Grid (one dynamic cell class) rather than a Network
     for i, (l, o) in enumerate(zip(sc.lines, obs)):
         ws = l.split()
         k = ws[0]
@@ -348,7 +367,7 @@ def oracle(sc, obs):
             s = int(ws[1])
             if not o.startswith("ok"):
                 continue
-            for clause, msg in look_problems(o, s):
+            for clause, msg in look_problems(o, s, is_grid.get(s, True)):
                 bad.append(f"{clause}: `{l}` (line {i}): {msg}")
             if s in last and last[s] != o and all(f is None or f != fam.get(s) for f in since.get(s, [])):
                 bad.append(f"space-detached: space {s} showed {last[s]!r} and, after operations on other objects / rejected "
@@ -362,6 +381,7 @@ def oracle(sc, obs):
             for x in range(s, s + 1 + int(ws[1])):
                 fam[x] = nfam
             nfam += 1
+            is_grid[s] = not ws[3].startswith("net")
         elif k == "agent":
             if o.startswith("ok"):
                 fam[int(o.split()[1])] = fam.get(int(ws[1]))
@@ -371,6 +391,7 @@ def oracle(sc, obs):
         elif k == "copy" and o.startswith("ok"):
             s, s2 = int(ws[1]), int(o.split()[1])
             B = s2 - s
+            is_grid[s2] = is_grid.get(s, True)
             for x in [x for x, f in fam.items() if f == fam.get(s)]:
                 fam[x + B] = nfam
             nfam += 1
